@@ -64,7 +64,7 @@ class Effects:
             for x in t[1]:
                 out |= self.roots(q, x, seen)
             return out
-        if h == "mut":
+        if h in ("mut", "mutf"):
             return self.roots(q, t[2], seen)
         if h in ("phi", "after"):
             k = (t[1], t[2])
